@@ -109,11 +109,15 @@ func bcVerify(seq []bcIns, entryDepth int, requireRet bool) (problems []bcProble
 }
 
 // bcVerifyFrom starts at instruction `start`; endStates collects the (depth, path, exp) states that fall out of the end.
+// bcLastExp / bcLastPath: exp and path nesting per instruction of the most recent bcVerifyFrom (single-threaded use).
+var bcLastExp, bcLastPath []int
+
 func bcVerifyFrom(seq []bcIns, start, entryDepth int, requireRet bool) (problems []bcProblem, reached []bool, depths []int, endStates []bcState) {
 	n := len(seq)
 	depth := make([]int, n)
 	pathd := make([]int, n)
 	expd := make([]int, n)
+	bcLastExp, bcLastPath = expd, pathd
 	reached = make([]bool, n)
 	report := func(pc int, format string, a ...any) {
 		problems = append(problems, bcProblem{pc, fmt.Sprintf(format, a...)})
